@@ -1,4 +1,4 @@
-import G3D.Proofs.KernelsTieReal
+import G3D.Proofs.KTieKdist
 import G3D.Props.C10
 import G3D.Props.Classes
 #print axioms G3D.Props.C10.distance_is_minimum
@@ -7,11 +7,17 @@ import G3D.Props.Classes
 #print axioms G3D.Props.C10.distance_dispatch_documented
 #print axioms G3D.Props.C10.distance_dispatch_rest_raises
 #print axioms G3D.Props.Classes.geobody_forwards
-#print axioms G3D.KernelsTieReal.distPointPoint_cast
-#print axioms G3D.KernelsTieReal.distPointLine_tie
-#print axioms G3D.KernelsTieReal.distPointPlane_tie
-#print axioms G3D.KernelsTieReal.distLineLineSkew_tie
-#print axioms G3D.KernelsTieReal.distLineLinePar_tie
-#print axioms G3D.KernelsTieReal.distLinePlanePar_tie
-#print axioms G3D.KernelsTieReal.distLinePlaneCross_tie
-#print axioms G3D.KernelsTieReal.dist_paths
+#print axioms G3D.KTie.Kdist.distPointPoint_model
+#print axioms G3D.KTie.Kdist.pointDistance_model
+#print axioms G3D.KTie.Kdist.distPointLine_tie
+#print axioms G3D.KTie.Kdist.distPointPlane_tie
+#print axioms G3D.KTie.Kdist.distLineLineSkew_tie
+#print axioms G3D.KTie.Kdist.distLineLinePar_tie
+#print axioms G3D.KTie.Kdist.distLinePlanePar_tie
+#print axioms G3D.KTie.Kdist.distLinePlaneCross_tie
+#print axioms G3D.KTie.Kdist.distPointLine_path
+#print axioms G3D.KTie.Kdist.distPointPlane_path
+#print axioms G3D.KTie.Kdist.distLineLineSkew_path
+#print axioms G3D.KTie.Kdist.distLineLinePar_path
+#print axioms G3D.KTie.Kdist.distLinePlanePar_path
+#print axioms G3D.KTie.Kdist.distLinePlaneCross_path
